@@ -173,6 +173,22 @@ def enumerated(seed, quick):
                             code=domain.code_case('Toric2DCode', size), errors='random',
                             rates=[0.1, 0.2, 0.15, 0.2], n_errors=16 if quick else 40,
                             rseed=seed * 1000 + i))
+    # BP-OSD at the corners of its parameter space: rate at the end points
+    # and 1/2, noise on the vertices and edges of the direction simplex (zero
+    # and one channel probabilities), with and without the Bayes update
+    for cls, size in (('RotatedPlanar2DCode', (2, 2)), ('Planar2DCode', (2, 2))):
+        for cu in (False, True):
+            for rate in (0.0, 1.0, 0.5):
+                for direction in domain.DIRECTION_POOL[:6]:
+                    for nd in (None, 'XZZX'):
+                        i += 1
+                        out.append(dict(base, decoder='BeliefPropagationOSDDecoder',
+                                        dparams={'osd_order': 0, 'max_bp_iter': 10,
+                                                 'channel_update': cu},
+                                        direction=[float(x) for x in direction],
+                                        noise_deformation=nd, error_rate=rate,
+                                        code=domain.code_case(cls, size), errors='weight12',
+                                        n_errors=12 if quick else 60, rseed=seed * 1000 + i))
     # BP-OSD on deformed (non-CSS) small codes, weight <= 2
     for cls, size, dn in (('Toric2DCode', (2, 3), 'XZZX'), ('RotatedPlanar2DCode', (3, 3), 'XY'),
                           ('Planar2DCode', (2, 3), 'XZZX'), ('RotatedPlanar3DCode', (2, 2, 2), 'XZZX'),
